@@ -1043,6 +1043,7 @@ func (p *asyncProducer) retryHandler() {
 	buf := queue.New()
 
 	for {
+		verifPoint("rh.loop", buf.Length())
 		if buf.Length() == 0 {
 			msg = <-p.retries
 		} else {
